@@ -177,6 +177,10 @@ def SM(text, mappings, sources=('o.js',), contents=(), names=(), root=None, max=
 TREES_QUICK.append(('concat[orig ?/,sms(b -> o.js line 2)]', CC(O('?\n'), SM('b', 'AACA', ('o.js',)))))
 
 C13_QUICK += [
+    ('uncached:cached(concat[rawstr,orig of line breaks only]) after map(columns), then lines-only', CA(CC(RS('!'), O('\n\n'))), 'uncached', dict(history=['map1'])),
+    ('uncached:cached(concat[rawstr,orig of line breaks only]) after map(lines), then columns', CA(CC(RS('!'), O('\n'))), 'uncached', dict(history=['map0'])),
+    ('uncached:concat[cached(concat[orig a;,rawstr]),orig c/ c] after map (cache filled by the first streaming, replayed by the second)', CC(CA(CC(O('a;'), RS('!'))), O('c\n', 'c.js')), 'uncached', dict(history=['map1'])),
+    ('uncached:concat[cached(concat[orig ?;,rawstr]),orig c c] after a stream', CC(CA(CC(O('?;'), RS('!'))), O('c', 'c.js')), 'uncached', dict(history=['c1f0'])),
     ('unwrap:concat[replace(sms(ab/ trailing newline, zero-width last segment),[]),orig c b]', CC(RP(SM('ab\n', 'AAAA;?A?A', ('o.js',))), O('c', 'b.js')), 'unwrap'),
     ('unwrap:concat[boxed(sms(ab/cd)),replace(orig ?;,[]),cached(rawstr1)]', CC(BX(SM('ab\ncd', 'AAAA,?AAA;?ACA', ('o.js',))), RP(O('?;', 'b.js')), CA(RS('!'))), 'unwrap'),
     ('inner:single[sms(abcd named,unnamed,named at one original position)]', CC(SM('abcd', 'AAAAA,CAAA,CAAAA,C', ('o.js',), (), ('n1',))), 'inner'),
@@ -202,9 +206,13 @@ SMS_QUICK = [
     ('concat[orig ab,sms(xx/yyzz first line unmapped, symbolic column)]', CC(O('ab'), SM('xx\nyyzz', ';?AAA', ('o.js',)))),
     ('concat[sms(abcd named,unnamed,named at one original position),rawstr1]', CC(SM('abcd', 'AAAAA,CAAA,CAAAA,C', ('o.js',), (), ('n1',)), RS('!'))),
     ('concat[sms(abc unnamed then named at one original position),rawstr1]', CC(SM('abc', 'AAAA,CAAAA,?AAA', ('o.js',), (), ('n1',)), RS('!'))),
+    ('sms(abcdef/, zero-width mapped segment then an unmapped one at the same column)', SM('abcdef\n', 'AAAA,?AAE,A,EAAE', ('a.js',))),
+    ('sms(abcd, mapped then unmapped at column 0)', SM('abcd', 'AAAA,A,?AAC', ('a.js',))),
     ('sms(ab, root ending in several slashes)', SM('ab', 'AAAA,CCAA', ('s/a.js', 'b.js'), (), (), 'webpack:///')),
 ]
 SMS_WILD = [
+    ('wild:sms(abc/ trailing line break, segments one and two lines past the text)', SM('abc\n', 'AAAA;?AAA;?AAA', ('o.js',), (), (), None, 6, False)),
+    ('wild:sms(abc/ trailing line break, segment two lines past the text)', SM('abc\n', 'AAAA;;AAA?', ('o.js',), (), (), None, 6, False)),
     ('wild:sms(ab/cd,any single digits)', SM('ab\ncd', '????;A???', ('o.js',), ('ab',), ('n',), None, 8, False)),
     ('wild:sms(ab/cd,names and big columns)', SM('ab\ncd', 'AAAA?,?AAAA;?', ('o.js',), ('ab',), ('n',), None, 32, False)),
     ('wild:sms(ab,lines beyond text)', SM('ab', 'AAAA;;;?A?A;AAAAC', ('o.js',), (), (), None, 8, False)),
@@ -502,6 +510,9 @@ NEQ_QUICK = [
     ('concat[raw binary] child bytes', _e(CC({'kind': 'raw', 'text': '', 'bytes': [0xC3]}, RS('a')), CC({'kind': 'raw', 'text': '', 'bytes': [0xE2]}, RS('a')))),
     ('replace added after an observation', _e(RP(O('abcd'), (2, 3, 'X', None, 1, ['hash']), (0, 1, 'Y')), RP(O('abcd'), (2, 3, 'X')))),
     ('concat empty original child presence', _e(CC(O('', 'e.js'), O('a')), CC(O('a')))), ('concat empty original child name', _e(CC(O('', 'e.js'), O('a')), CC(O('', 'f.js'), O('a')))),
+    ('sms debug id presence', _e(SMX, dict(SMX, map=dict(SMX['map'], debugId='d1')))), ('sms debug id value', _e(dict(SMX, map=dict(SMX['map'], debugId='d1')), dict(SMX, map=dict(SMX['map'], debugId='d2')))),
+    ('sms surplus sourcesContent entry', _e(SM('ab', 'AAAA', ('o.js',), ('xy', 's1')), SM('ab', 'AAAA', ('o.js',), ('xy', 's2')))), ('sms surplus sourcesContent presence', _e(SM('ab', 'AAAA', ('o.js',), ('xy', 's1')), SM('ab', 'AAAA', ('o.js',), ('xy',)))),
+    ('cached(sms) debug id', _e(CA(dict(SMX, map=dict(SMX['map'], debugId='d1'))), CA(SMX))),
     ('cached inner', _e(CA(O('a?')), CA(O('b?')))), ('cached vs plain', _e(CA(O('ab')), O('ab'), True)), ('boxed concat vs flat leaf', _e(CC(RS('ab')), RS('ab'), True)),
 ]
 
@@ -622,6 +633,10 @@ ROPE_QUICK = [
     ('multi-byte pairs', [['from_iter', ['\u00e9', '?b']], ['from_iter', ['a\u20ac', '']], ['from_iter', ['\u20acb', 'y']], ['from_iter', ['\u00e9', 'x']], ['from', '\u00e9?b']], ['basic', 'pairs']),
 ] + [('slice form %s' % f_, [['from_iter', ['?a', '\u00e9?', '']], ['slice', 0, '?', '?', f_]], ['basic', 'bytes']) for f_ in ('to', 'to_incl', 'from', 'incl')] + [
     ('light slice form %s' % f_, [['from', '?\u00e9?'], ['slice', 0, '?', '?', f_]], ['basic']) for f_ in ('to', 'to_incl', 'from', 'incl')]
+ROPE_QUICK += [
+    ('two line ends inside one piece of a multi-piece rope', [['from_iter', ['?\n?\n', '??']], ['from_iter', ['x\nyy\n', '?\n', '12']], ['from_iter', ['a\nb\n', '?']], ['from_iter', ['?\n\n', '\n?', '\n']]], ['basic', 'lines']),
+    ('prefix / suffix arguments with trailing and leading empty pieces', [['from', 'a'], ['new'], ['add', 1, 'x'], ['append', 0, 1], ['slice', 0, '?', '?'], ['from_iter', ['a']], ['from_iter', ['', 'x']], ['from_iter', ['a', 'x']]], ['basic', 'pairs']),
+]
 ROPE_THOROUGH = [
     ('5 pieces two slices', [['from_iter', ['?\n', '', '??', '\n', '?']], ['slice', 0, '?', '?'], ['slice', 0, '?', '?']], ALLOBS),
     ('append chains', [['new'], ['add', 0, '?'], ['add', 0, '\n'], ['from_iter', ['?', '?\n?']], ['append', 0, 1], ['append', 1, 0], ['slice', 1, '?', '?']], ALLOBS),
